@@ -13,9 +13,9 @@ Local Open Scope N_scope.
 
 (* Switches: [true] = the repaired code now in /repo (fixes/C12-*.patch), [false] = the code as found.
    The model, the judge and the theorems read the switch; the *_refuted theorems speak about the [false] variants. *)
-Definition fixed_xprv128_length : bool := false.      (* from_128_xprv checks the length instead of slicing blindly *)
-Definition fixed_hash_bech32_padding : bool := false. (* <hash>::from_bech32 reports invalid padding instead of unwrapping *)
-Definition fixed_ext_scalar_check : bool := false.    (* Ed25519Extended / LegacyDaedalus secret_from_binary reject a scalar with bit 255 set *)
+Definition fixed_xprv128_length : bool := true.       (* from_128_xprv checks the length instead of slicing blindly *)
+Definition fixed_hash_bech32_padding : bool := true.  (* <hash>::from_bech32 reports invalid padding instead of unwrapping *)
+Definition fixed_ext_scalar_check : bool := true.     (* Ed25519Extended / LegacyDaedalus secret_from_binary reject a scalar with bit 255 set *)
 
 
 Definition unwrap {A} (r : result A) : result A := match r with Ok a => Ok a | OutOfFuel => OutOfFuel | _ => Panic end.
